@@ -15,26 +15,36 @@
       length whose elements are position by position containers of the same kind (`sameKinds`,
       decidable: `sameContainerType` pairwise) and such that no element of the first has the hash
       code of an element of the second: `a.Diff(b)` IS the concatenation of the sub-diffs
-      `diffNode o false xs[i] ys[i] [.idx i]`; there is no array-level hunk. No other hypothesis.
+      `diffNode o false xs[i] ys[i] [.idx i]`; there is no array-level hunk. One more hypothesis
+      (since the model follows the end block of Go's `diffRest`, `Jd.subAfter`): `noMixed xs ys`, no
+      position holds a typed `jsonList` against a plain `jsonArray` (decidable; true of documents read
+      from text, `noMixed_of_rawDocList`). Such a pair is replaced wholesale by ONE hunk at the
+      element's own path and `subAfter` gives that hunk the after-context, so the diff is not the bare
+      concatenation: `Example.mixed_not_concatenation`.
     * `diffM_recurses_at` (`diffRest_recurses_at` for the loop with any common sequence,
       `diffM_recurses_at_whole`): `Reach` is the cursor walk of `jsonList.diffRest` (the decisions
       of the code, without the hunks). If the walk reaches a position whose cursor elements `x`, `y`
-      are containers of the same kind and neither is the next element of the remaining common
-      sequence (`atC … = false`), then
+      are containers of the same kind, not a typed list against a plain array (`mixedPair x y =
+      false`), and neither is the next element of the remaining common sequence (`atC … = false`), then
          a.Diff(b) = D1 ++ diffNode o false x y [.idx j] ++ D2,     j = position of `y` in `ys`,
       no hunk of the sub-diff is an array-level hunk (`isTop`), the array-level hunks of `D1` remove
       a sublist of the elements BEFORE `x` and add a sublist of those before `y`, the array-level
       hunks of `D2` remove a sublist of the elements AFTER `x` and add a sublist of those after `y`:
       no array-level hunk removes `x` or adds `y`. Hypothesis: the elements are list documents
       (`listDocList`: no set / multiset typed node; what the readers produce).
+      `diffRest_recurses_at_subAfter` is the form WITHOUT the `mixedPair` hypothesis (the sub-diff
+      appears passed through `subAfter`); `diffM_recurses_at_whole` needs no such hypothesis.
       `sub_diff_strictly_inside`: for documents as read from text (`rawDoc`) every hunk of the
       sub-diff is addressed strictly inside the container (it is never replaced as a whole).
     * `diffM_top_removes_adds_le` (`diffRest_top_counts_le`): the array-level hunks remove at most
       `|xs| − LCS` and add at most `|ys| − LCS` elements (textbook LCS length of the hash lists):
       the minimality clause of C06 extended from scalars (`Jd.Min`, equality) to containers (≤).
   (3) SHAPE
-    * `diffM_array_hunks` (`diffNode_array_hunks`, loop invariant `diffRest_classify`): NO
-      hypothesis on the elements. Every hunk of the diff of two arrays is an array-level hunk —
+    * `diffM_array_hunks` (`diffNode_array_hunks`, loop invariant `diffRest_classify`): the only
+      hypothesis on the elements is `∀ x ∈ xs, ∀ y ∈ ys, mixedPair x y = false` (no typed array
+      node of the first array against a plain `jsonArray` of the second; the wholesale hunk of such a
+      pair, with the after-context `subAfter` gives it, is neither an array-level hunk of the
+      advertised shape nor literally a hunk of the sub-diff). Every hunk of the diff of two arrays is an array-level hunk —
       strict, path `[.idx i]`, exactly one before- and one after-context line, `remove ≠ [] ∨
       add ≠ []` — or belongs to the sub-diff at `[.idx j]` of two same-kind containers `x ∈ xs`,
       `y = ys[j]`. (`sub_hunk_not_array_level`: on list documents the alternatives exclude each
@@ -58,7 +68,8 @@
     * `diffM_located_containers` (`diffRest_located_containers`): static form, top-level array with
       containers. Hypotheses: elements `GoodL` (list documents, `wf`, finite numbers, no void
       member) and `NumHashOK` (numbers equal as floats have equal hash codes: true of all finite
-      doubles since `0` and `-0` hash alike; implied by `ZeroOK`); NO hash-collision hypothesis.
+      doubles since `0` and `-0` hash alike; implied by `ZeroOK`), no `mixedPair` between an element
+      of `xs` and one of `ys`; NO hash-collision hypothesis.
       Every hunk is `Real.Located` — `remove` a contiguous run of `xs`, `add` the contiguous run of
       `ys` at the addressed index, `before` LITERALLY the element of `ys` preceding it (void at the
       start), `after` LITERALLY the element of `xs` following the removed run (void at the end) —
@@ -82,7 +93,10 @@
       criterion on `xs`, `ys` is given for a position to be reached, beyond the special case.
     * list documents with a typed `jsonList` element against a plain `jsonArray` element: the
       sub-diff is a wholesale replacement (`Jd.diff_list_vs_array_nonempty` in JdProofs/DiffEmpty.lean, known); it is still
-      not an array-level hunk. Documents read from text (`rawDoc`) never contain such pairs.
+      not an array-level hunk (`subAfter_isTop_false`: no before-context), but when nothing was
+      accumulated it receives an after-context (`Jd.subAfter`, the end block of Go's `diffRest`), so
+      the statements that mention the sub-diff `diffNode o false x y …` LITERALLY exclude such pairs
+      (`noMixed`, `mixedPair`). Documents read from text (`rawDoc`) never contain such pairs.
 -/
 import JdProofs.LcsProofs
 import JdProofs.DiffPatchList
@@ -122,19 +136,23 @@ theorem accHunk_nil_nil (p : Path) (s : Nat) (prev after : Json) :
 theorem atC_nil (o : Opts) (x : Json) : atC o x [] = false := rfl
 
 /-- with an EMPTY common sequence and nothing accumulated, the walk over two lists of pairwise
-    same-kind containers of equal length emits the sub-diffs and nothing else -/
+    same-kind containers of equal length, no pair being a typed list against a plain array
+    (`noMixed`: such a pair is replaced wholesale and `subAfter` gives that hunk an after-context),
+    emits the sub-diffs and nothing else -/
 theorem diffRest_pairs (o : Opts) (p : Path) :
-    ∀ (xs ys : List Json), sameKinds o xs ys = true →
+    ∀ (xs ys : List Json), sameKinds o xs ys = true → noMixed xs ys = true →
       ∀ (k : Nat) (prev : Json),
         diffRest o p k k prev xs ys [] [] [] = subDiffs o p k xs ys
-  | [], [], _, k, prev => by rw [diffRest_nil_nil]; rfl
-  | [], _ :: _, h, _, _ => by simp [sameKinds] at h
-  | _ :: _, [], h, _, _ => by simp [sameKinds] at h
-  | x :: xs, y :: ys, h, k, prev => by
+  | [], [], _, _, k, prev => by rw [diffRest_nil_nil]; rfl
+  | [], _ :: _, h, _, _, _ => by simp [sameKinds] at h
+  | _ :: _, [], h, _, _, _ => by simp [sameKinds] at h
+  | x :: xs, y :: ys, h, hn, k, prev => by
     simp only [sameKinds, Bool.and_eq_true] at h
+    simp only [noMixed, Bool.and_eq_true, Bool.not_eq_true'] at hn
     rw [diffRest_cons]
     simp only [atC_nil, Bool.and_self, Bool.false_eq_true, if_false, h.1, if_true,
-      accHunk_nil_nil, List.nil_append, subDiffs, diffRest_pairs o p xs ys h.2]
+      accHunk_nil_nil, List.nil_append, subDiffs, diffRest_pairs o p xs ys h.2 hn.2,
+      Real.subAfter_diffNode_of_not_mixed o h.1 hn.1]
 
 /-- no hash code in common: the golcs common sequence is empty -/
 theorem lcsValues_nil_of_apart (o : Opts) (xs ys : List Json)
@@ -160,23 +178,23 @@ theorem diffNode_same_kind_containers {o : Opts} (ho : dispatchTag o = .list) {t
     (xs ys : List Json)
     (ht : (t == .raw || t == .list) = true) (ht' : (t' == .raw || t' == .list) = true)
     (htt : t = .raw ∨ t' = .list) (p : Path)
-    (same : sameKinds o xs ys = true)
+    (same : sameKinds o xs ys = true) (nomix : noMixed xs ys = true)
     (apart : ∀ x ∈ xs, ∀ y ∈ ys, hashCode o x ≠ hashCode o y) :
     diffNode o false (.arr t xs) (.arr t' ys) p = subDiffs o p 0 xs ys := by
   rw [diffNode_arr_arr ho xs ys ht ht' htt p, lcsValues_nil_of_apart o xs ys apart]
-  exact diffRest_pairs o p xs ys same 0 .void
+  exact diffRest_pairs o p xs ys same nomix 0 .void
 
 /-- **(1), special case, `a.Diff(b)`.** -/
 theorem diffM_same_kind_containers {o : Opts} (ho : dispatchTag o = .list) (hm : isMerge o = false)
     {t t' : Tag} (xs ys : List Json)
     (ht : (t == .raw || t == .list) = true) (ht' : (t' == .raw || t' == .list) = true)
     (htt : t = .raw ∨ t' = .list)
-    (same : sameKinds o xs ys = true)
+    (same : sameKinds o xs ys = true) (nomix : noMixed xs ys = true)
     (apart : ∀ x ∈ xs, ∀ y ∈ ys, hashCode o x ≠ hashCode o y) :
     diffM o (.arr t xs) (.arr t' ys) =
       ((xs.zip ys).zipIdx).flatMap
         (fun q => diffNode o false q.1.1 q.1.2 [.idx (q.2 : Int)]) := by
-  rw [diffM, hm, diffNode_same_kind_containers ho xs ys ht ht' htt [] same apart,
+  rw [diffM, hm, diffNode_same_kind_containers ho xs ys ht ht' htt [] same nomix apart,
     subDiffs_eq_flatMap]
   rfl
 
@@ -187,13 +205,13 @@ theorem diffM_same_kind_containers_mem {o : Opts} (ho : dispatchTag o = .list)
     (hm : isMerge o = false) {t t' : Tag} (xs ys : List Json)
     (ht : (t == .raw || t == .list) = true) (ht' : (t' == .raw || t' == .list) = true)
     (htt : t = .raw ∨ t' = .list)
-    (same : sameKinds o xs ys = true)
+    (same : sameKinds o xs ys = true) (nomix : noMixed xs ys = true)
     (apart : ∀ x ∈ xs, ∀ y ∈ ys, hashCode o x ≠ hashCode o y) :
     ∀ h ∈ diffM o (.arr t xs) (.arr t' ys), ∃ (i : Nat) (x y : Json),
       xs[i]? = some x ∧ ys[i]? = some y ∧ h ∈ diffNode o false x y [.idx (i : Int)] ∧
         [PathElem.idx (i : Int)] <+: h.path := by
   intro h hmem
-  rw [diffM_same_kind_containers ho hm xs ys ht ht' htt same apart, List.mem_flatMap] at hmem
+  rw [diffM_same_kind_containers ho hm xs ys ht ht' htt same nomix apart, List.mem_flatMap] at hmem
   obtain ⟨⟨⟨x, y⟩, i⟩, hq, hh⟩ := hmem
   have hq' := List.mem_zipIdx hq
   simp only [Nat.zero_le, Nat.sub_zero, true_and, Nat.zero_add] at hq'
@@ -204,7 +222,7 @@ theorem diffM_same_kind_containers_mem {o : Opts} (ho : dispatchTag o = .list)
   exact ⟨i, x, y, e'.1, e'.2, hh, Real.diff_paths_extend_general o false x y _ h hh⟩
 
 /-! ## B. every hunk of an array diff is an array-level hunk of the advertised shape, or belongs to
-    the sub-diff of two same-kind containers (no hypothesis on the elements) -/
+    the sub-diff of two same-kind containers (only hypothesis on the elements: no `mixedPair`) -/
 
 /-- `h` belongs to the sub-diff of two same-kind containers `x` (an element of `a`) and `y` (an
     element of `b`), computed at `p ++ [.idx j]` where `j` is `k` plus the position of `y` in `b` -/
@@ -231,12 +249,13 @@ theorem SubHunk.consB {o : Opts} {p : Path} {k : Nat} {a b : List Json} {h : Hun
     belongs to the sub-diff of two same-kind containers standing in the two remaining lists. -/
 theorem diffRest_classify (o : Opts) (p : Path) :
     ∀ (n : Nat) (a b : List Json), a.length + b.length = n →
+      (∀ x ∈ a, ∀ y ∈ b, mixedPair x y = false) →
       ∀ (k s : Nat) (prev : Json) (c : List UInt64) (R A : List Json),
         ∀ h ∈ diffRest o p k s prev a b c R A, Min.ListHunk p h ∨ SubHunk o p k a b h := by
   intro n
   induction n using Nat.strongRecOn with
   | _ n ih =>
-    intro a b hn k s prev c R A h hm
+    intro a b hn hnm k s prev c R A h hm
     cases a with
     | nil =>
       rw [diffRest_nilA] at hm
@@ -248,40 +267,49 @@ theorem diffRest_classify (o : Opts) (p : Path) :
         exact .inl (Min.accHunk_shape hm)
       | cons y b' =>
         simp only [List.length_cons] at hn
+        have hAA : ∀ z ∈ a', ∀ w ∈ b', mixedPair z w = false := fun z hz w hw =>
+          hnm z (List.mem_cons_of_mem _ hz) w (List.mem_cons_of_mem _ hw)
+        have hA1 : ∀ z ∈ a', ∀ w ∈ y :: b', mixedPair z w = false := fun z hz w hw =>
+          hnm z (List.mem_cons_of_mem _ hz) w hw
+        have h1B : ∀ z ∈ x :: a', ∀ w ∈ b', mixedPair z w = false := fun z hz w hw =>
+          hnm z hz w (List.mem_cons_of_mem _ hw)
         rw [diffRest_cons] at hm
         split at hm
         · rcases List.mem_append.1 hm with hm | hm
           · exact .inl (Min.accHunk_shape hm)
-          · exact (ih (a'.length + b'.length) (by omega) a' b' rfl _ _ _ _ _ _ h hm).imp id
+          · exact (ih (a'.length + b'.length) (by omega) a' b' rfl hAA _ _ _ _ _ _ h hm).imp id
               (fun hs => (hs.consA x).consB y)
         · split at hm
-          · exact (ih ((x :: a').length + b'.length) (by simp; omega) (x :: a') b' rfl _ _ _ _ _ _
+          · exact (ih ((x :: a').length + b'.length) (by simp; omega) (x :: a') b' rfl h1B _ _ _ _ _ _
               h hm).imp id (fun hs => hs.consB y)
           · split at hm
-            · exact (ih (a'.length + (y :: b').length) (by simp; omega) a' (y :: b') rfl _ _ _ _ _ _
+            · exact (ih (a'.length + (y :: b').length) (by simp; omega) a' (y :: b') rfl hA1 _ _ _ _ _ _
                 h hm).imp id (fun hs => hs.consA x)
             · split at hm
               · next hsame =>
+                rw [Real.subAfter_diffNode_of_not_mixed o hsame
+                  (hnm x List.mem_cons_self y List.mem_cons_self)] at hm
                 rcases List.mem_append.1 hm with hm | hm
                 · rcases List.mem_append.1 hm with hm | hm
                   · exact .inl (Min.accHunk_shape hm)
                   · exact .inr ⟨[], x, a', [], y, b', rfl, rfl, hsame, by simpa using hm⟩
-                · exact (ih (a'.length + b'.length) (by omega) a' b' rfl _ _ _ _ _ _ h hm).imp id
+                · exact (ih (a'.length + b'.length) (by omega) a' b' rfl hAA _ _ _ _ _ _ h hm).imp id
                     (fun hs => (hs.consA x).consB y)
-              · exact (ih (a'.length + b'.length) (by omega) a' b' rfl _ _ _ _ _ _ h hm).imp id
+              · exact (ih (a'.length + b'.length) (by omega) a' b' rfl hAA _ _ _ _ _ _ h hm).imp id
                   (fun hs => (hs.consA x).consB y)
 
 /-- **(3) for `diffNode`.** -/
 theorem diffNode_array_hunks {o : Opts} (ho : dispatchTag o = .list) {t t' : Tag}
     (xs ys : List Json)
     (ht : (t == .raw || t == .list) = true) (ht' : (t' == .raw || t' == .list) = true)
-    (htt : t = .raw ∨ t' = .list) (p : Path) :
+    (htt : t = .raw ∨ t' = .list) (p : Path)
+    (nomix : ∀ x ∈ xs, ∀ y ∈ ys, mixedPair x y = false) :
     ∀ h ∈ diffNode o false (.arr t xs) (.arr t' ys) p,
       (h.before.length = 1 ∧ h.after.length = 1 ∧ (∃ i : Nat, h.path = p ++ [.idx i]) ∧
         h.merge = false ∧ (h.remove ≠ [] ∨ h.add ≠ [])) ∨
       SubHunk o p 0 xs ys h := by
   rw [diffNode_arr_arr ho xs ys ht ht' htt p]
-  exact fun h hm => diffRest_classify o p _ xs ys rfl 0 0 .void _ [] [] h hm
+  exact fun h hm => diffRest_classify o p _ xs ys rfl nomix 0 0 .void _ [] [] h hm
 
 /-- **(3) for `a.Diff(b)`**, two arrays with arbitrary elements (containers allowed, any nesting):
     every hunk is an ARRAY-LEVEL hunk — strict, addressed to an index of the array, exactly one line
@@ -291,7 +319,8 @@ theorem diffNode_array_hunks {o : Opts} (ho : dispatchTag o = .list) {t t' : Tag
 theorem diffM_array_hunks {o : Opts} (ho : dispatchTag o = .list) (hm : isMerge o = false)
     {t t' : Tag} (xs ys : List Json)
     (ht : (t == .raw || t == .list) = true) (ht' : (t' == .raw || t' == .list) = true)
-    (htt : t = .raw ∨ t' = .list) :
+    (htt : t = .raw ∨ t' = .list)
+    (nomix : ∀ x ∈ xs, ∀ y ∈ ys, mixedPair x y = false) :
     ∀ h ∈ diffM o (.arr t xs) (.arr t' ys),
       (h.before.length = 1 ∧ h.after.length = 1 ∧ (∃ i : Nat, h.path = [.idx i]) ∧
         h.merge = false ∧ (h.remove ≠ [] ∨ h.add ≠ [])) ∨
@@ -300,7 +329,7 @@ theorem diffM_array_hunks {o : Opts} (ho : dispatchTag o = .list) (hm : isMerge 
           h ∈ diffNode o false x y [.idx (preB.length : Int)]) := by
   rw [diffM, hm]
   intro h hmem
-  rcases diffNode_array_hunks ho xs ys ht ht' htt [] h hmem with h1 | h1
+  rcases diffNode_array_hunks ho xs ys ht ht' htt [] nomix h hmem with h1 | h1
   · exact .inl (by simpa using h1)
   · obtain ⟨preA, x, postA, preB, y, postB, ea, eb, hk, hh⟩ := h1
     exact .inr ⟨preA, x, postA, preB, y, postB, ea, eb, hk, by simpa using hh⟩
@@ -472,7 +501,9 @@ theorem diff_deep (o : Opts) (ho : dispatchTag o = .list) :
       List.mem_append] at hm
     rcases hm with (hm | hm) | hm
     · exact accHunk_deep hm
-    · rcases ihN (rawDocList_cons ha).1 (rawDocList_cons hb).1 _ h hm with ⟨_, _, _, _, g⟩ | hd
+    · rw [Real.subAfter_diffNode_of_not_mixed o hs
+        (mixedPair_of_rawDoc_left y (rawDocList_cons ha).1)] at hm
+      rcases ihN (rawDocList_cons ha).1 (rawDocList_cons hb).1 _ h hm with ⟨_, _, _, _, g⟩ | hd
       · rw [hs] at g; cases g
       · exact hd.below
     · exact ihR (rawDocList_cons ha).2 (rawDocList_cons hb).2 p h hm
@@ -842,6 +873,16 @@ theorem sub_isTop_false {o : Opts} (ho : dispatchTag o = .list) {x y : Json}
     left; omega
   · simp [isTop, hb]
 
+/-- the same after `subAfter` (it only touches the `after` field of a hunk without before-context) -/
+theorem subAfter_isTop_false {o : Opts} (ho : dispatchTag o = .list) {x y : Json}
+    (hx : x.listDoc = true) (hy : y.listDoc = true) (hs : sameContainerType o x y = true)
+    (p : Path) (j : Int) (n : Bool) (nx : Json) :
+    ∀ h ∈ subAfter p n nx (diffNode o false x y (p ++ [.idx j])), isTop p h = false := by
+  intro h hm
+  obtain ⟨h0, hm0, hp0, _, _, hb0, _⟩ := mem_subAfter' hm
+  have := sub_isTop_false ho hx hy hs p j h0 hm0
+  simpa [isTop, hp0, hb0] using this
+
 theorem listDocList_append {xs ys : List Json} :
     listDocList (xs ++ ys) = true ↔ listDocList xs = true ∧ listDocList ys = true := by
   induction xs with
@@ -894,7 +935,8 @@ theorem diffRest_top_sublists {o : Opts} (ho : dispatchTag o = .list) (p : Path)
                 obtain ⟨h1, h2⟩ := ih (a'.length + b'.length) (by omega) a' b' rfl hla'.2 hlb'.2
                   (k + 1) (k + 1) y c [] []
                 simp only [List.nil_append] at h1 h2
-                have hf := sub_isTop_false ho hla'.1 hlb'.1 hsame p (k : Int)
+                have hf := subAfter_isTop_false ho hla'.1 hlb'.1 hsame p (k : Int)
+                  (R.isEmpty && A.isEmpty) (a'.headD .void)
                 simp only [removedTop_append, addedTop_append, removedTop_accHunk,
                   addedTop_accHunk, removedTop_of_all_false hf, addedTop_of_all_false hf,
                   List.append_nil]
@@ -956,11 +998,13 @@ theorem reach_decomp {o : Opts} (ho : dispatchTag o = .list) (p : Path) {a0 b0 :
       have := hlb.2
       simp only [listDocList, Bool.and_eq_true] at this
       exact this.1
-    have hf := sub_isTop_false ho hlx hly hs p ((k0 + preB.length : Nat) : Int)
+    have hf := subAfter_isTop_false ho hlx hly hs p ((k0 + preB.length : Nat) : Int)
+      (R.isEmpty && A.isEmpty) (a'.headD .void)
     refine ⟨D1 ++ (accHunk p s prev R A
         (if (diffNode o false x y (p ++ [.idx ((k0 + preB.length : Nat) : Int)])).isEmpty then
           a'.headD .void else x) ++
-        diffNode o false x y (p ++ [.idx ((k0 + preB.length : Nat) : Int)])),
+        subAfter p (R.isEmpty && A.isEmpty) (a'.headD .void)
+          (diffNode o false x y (p ++ [.idx ((k0 + preB.length : Nat) : Int)]))),
       k0 + preB.length + 1, y, [], [], preA ++ [x], preB ++ [y], ?_, by simp [ea], by simp [eb],
       ?_, ?_⟩
     · rw [e, diffRest_cons]
@@ -984,25 +1028,22 @@ theorem reach_decomp {o : Opts} (ho : dispatchTag o = .list) (p : Path) {a0 b0 :
     · simp only [← List.append_assoc]
       exact List.Sublist.append h2 (List.Sublist.refl _)
 
-/-- **(1), general, loop form.** The walk started on `xs ys c0` reaches a position where the two
-    cursor elements `x` and `y` are containers of the same kind and neither is the next element
-    of the remaining common sequence (`atC … = false`: the condition as the code decides it).
-    Then the output is `D1 ++ diffNode o false x y (p ++ [.idx j]) ++ D2` where `j` is the position
-    of `y` in `ys`; no hunk of the sub-diff is an array-level hunk; the array-level hunks of `D1`
-    remove a sublist of the elements of `xs` BEFORE `x` and add a sublist of the elements of `ys`
-    before `y`, those of `D2` remove a sublist of the elements AFTER `x` and add a sublist of the
-    elements after `y`: no array-level hunk removes `x` or adds `y`. -/
-theorem diffRest_recurses_at {o : Opts} (ho : dispatchTag o = .list) (p : Path)
+/-- the general loop form behind `diffRest_recurses_at` and `diffM_recurses_at_whole`, WITHOUT the
+    `mixedPair` hypothesis: the sub-diff appears passed through `subAfter` (which is the identity
+    unless `x` is a typed list and `y` a plain array). -/
+theorem diffRest_recurses_at_subAfter {o : Opts} (ho : dispatchTag o = .list) (p : Path)
     {xs ys : List Json} {c0 : List UInt64}
     (hla : listDocList xs = true) (hlb : listDocList ys = true)
     {x y : Json} {a' b' : List Json} {c : List UInt64}
     (hr : Reach o xs ys c0 (x :: a') (y :: b') c)
     (hA : atC o x c = false) (hB : atC o y c = false) (hs : sameContainerType o x y = true) :
-    ∃ (D1 D2 : Diff) (preA preB : List Json),
+    ∃ (D1 D2 : Diff) (preA preB : List Json) (n : Bool),
       xs = preA ++ x :: a' ∧ ys = preB ++ y :: b' ∧
       diffRest o p 0 0 .void xs ys c0 [] [] =
-        D1 ++ diffNode o false x y (p ++ [.idx (preB.length : Int)]) ++ D2 ∧
-      (∀ h ∈ diffNode o false x y (p ++ [.idx (preB.length : Int)]), isTop p h = false) ∧
+        D1 ++ subAfter p n (a'.headD .void)
+          (diffNode o false x y (p ++ [.idx (preB.length : Int)])) ++ D2 ∧
+      (∀ h ∈ subAfter p n (a'.headD .void)
+          (diffNode o false x y (p ++ [.idx (preB.length : Int)])), isTop p h = false) ∧
       (removedTop p D1).Sublist preA ∧ (addedTop p D1).Sublist preB ∧
       (removedTop p D2).Sublist a' ∧ (addedTop p D2).Sublist b' := by
   obtain ⟨D1, s, prev, R, A, preA, preB, e, ea, eb, h1, h2⟩ :=
@@ -1013,20 +1054,51 @@ theorem diffRest_recurses_at {o : Opts} (ho : dispatchTag o = .list) (p : Path)
   rw [eb, listDocList_append] at hlb'
   have hxa := hla'.2; have hyb := hlb'.2
   simp only [listDocList, Bool.and_eq_true] at hxa hyb
-  have hf := sub_isTop_false ho hxa.1 hyb.1 hs p (preB.length : Int)
+  have hf := subAfter_isTop_false ho hxa.1 hyb.1 hs p (preB.length : Int)
+    (R.isEmpty && A.isEmpty) (a'.headD .void)
   obtain ⟨g1, g2⟩ := diffRest_top_sublists ho p _ a' b' rfl hxa.2 hyb.2 (preB.length + 1)
     (preB.length + 1) y c [] []
   simp only [List.nil_append] at g1 g2
   refine ⟨D1 ++ accHunk p s prev R A
       (if (diffNode o false x y (p ++ [.idx (preB.length : Int)])).isEmpty then a'.headD .void
         else x),
-    diffRest o p (preB.length + 1) (preB.length + 1) y a' b' c [] [], preA, preB, ea, eb, ?_, hf,
-    ?_, ?_, g1, g2⟩
+    diffRest o p (preB.length + 1) (preB.length + 1) y a' b' c [] [], preA, preB,
+    (R.isEmpty && A.isEmpty), ea, eb, ?_, hf, ?_, ?_, g1, g2⟩
   · rw [e, diffRest_cons]
     simp only [hA, hB, hs, Bool.false_and, Bool.false_eq_true, if_false, if_true,
       List.append_assoc]
   · simpa using h1
   · simpa using h2
+
+/-- **(1), general, loop form.** The walk started on `xs ys c0` reaches a position where the two
+    cursor elements `x` and `y` are containers of the same kind and neither is the next element
+    of the remaining common sequence (`atC … = false`: the condition as the code decides it), and
+    `x`, `y` are not a typed list against a plain array (`mixedPair x y = false`; for such a pair the
+    sub-diff is one wholesale hunk and `subAfter` gives it an after-context:
+    `diffRest_recurses_at_subAfter`).
+    Then the output is `D1 ++ diffNode o false x y (p ++ [.idx j]) ++ D2` where `j` is the position
+    of `y` in `ys`; no hunk of the sub-diff is an array-level hunk; the array-level hunks of `D1`
+    remove a sublist of the elements of `xs` BEFORE `x` and add a sublist of the elements of `ys`
+    before `y`, those of `D2` remove a sublist of the elements AFTER `x` and add a sublist of the
+    elements after `y`: no array-level hunk removes `x` or adds `y`. -/
+theorem diffRest_recurses_at {o : Opts} (ho : dispatchTag o = .list) (p : Path)
+    {xs ys : List Json} {c0 : List UInt64}
+    (hla : listDocList xs = true) (hlb : listDocList ys = true)
+    {x y : Json} {a' b' : List Json} {c : List UInt64}
+    (hr : Reach o xs ys c0 (x :: a') (y :: b') c)
+    (hA : atC o x c = false) (hB : atC o y c = false) (hs : sameContainerType o x y = true)
+    (hnm : mixedPair x y = false) :
+    ∃ (D1 D2 : Diff) (preA preB : List Json),
+      xs = preA ++ x :: a' ∧ ys = preB ++ y :: b' ∧
+      diffRest o p 0 0 .void xs ys c0 [] [] =
+        D1 ++ diffNode o false x y (p ++ [.idx (preB.length : Int)]) ++ D2 ∧
+      (∀ h ∈ diffNode o false x y (p ++ [.idx (preB.length : Int)]), isTop p h = false) ∧
+      (removedTop p D1).Sublist preA ∧ (addedTop p D1).Sublist preB ∧
+      (removedTop p D2).Sublist a' ∧ (addedTop p D2).Sublist b' := by
+  obtain ⟨D1, D2, preA, preB, n, ea, eb, e, hf, h1, h2, h3, h4⟩ :=
+    diffRest_recurses_at_subAfter ho p hla hlb hr hA hB hs
+  rw [Real.subAfter_diffNode_of_not_mixed o hs hnm] at e hf
+  exact ⟨D1, D2, preA, preB, ea, eb, e, hf, h1, h2, h3, h4⟩
 
 /-- **(1), general, for `a.Diff(b)`** of two arrays (list documents: every array node a plain
     `jsonArray` or a `jsonList`). -/
@@ -1037,7 +1109,8 @@ theorem diffM_recurses_at {o : Opts} (ho : dispatchTag o = .list) (hm : isMerge 
     (hla : listDocList xs = true) (hlb : listDocList ys = true)
     {x y : Json} {a' b' : List Json} {c : List UInt64}
     (hr : Reach o xs ys (lcsValues (hashList o xs) (hashList o ys)) (x :: a') (y :: b') c)
-    (hA : atC o x c = false) (hB : atC o y c = false) (hs : sameContainerType o x y = true) :
+    (hA : atC o x c = false) (hB : atC o y c = false) (hs : sameContainerType o x y = true)
+    (hnm : mixedPair x y = false) :
     ∃ (D1 D2 : Diff) (preA preB : List Json),
       xs = preA ++ x :: a' ∧ ys = preB ++ y :: b' ∧
       diffM o (.arr t xs) (.arr t' ys) =
@@ -1046,7 +1119,7 @@ theorem diffM_recurses_at {o : Opts} (ho : dispatchTag o = .list) (hm : isMerge 
       (removedTop [] D1).Sublist preA ∧ (addedTop [] D1).Sublist preB ∧
       (removedTop [] D2).Sublist a' ∧ (addedTop [] D2).Sublist b' := by
   rw [diffM, hm, diffNode_arr_arr ho xs ys ht ht' htt []]
-  simpa using diffRest_recurses_at ho [] hla hlb hr hA hB hs
+  simpa using diffRest_recurses_at ho [] hla hlb hr hA hB hs hnm
 
 /-- the array-level hunks, all together, remove `x`'s neighbours only: a sublist of `xs` with the
     position of `x` taken out (and add a sublist of `ys` with the position of `y` taken out) -/
@@ -1061,8 +1134,9 @@ theorem diffM_recurses_at_whole {o : Opts} (ho : dispatchTag o = .list) (hm : is
     ∃ (preA preB : List Json), xs = preA ++ x :: a' ∧ ys = preB ++ y :: b' ∧
       (removedTop [] (diffM o (.arr t xs) (.arr t' ys))).Sublist (preA ++ a') ∧
       (addedTop [] (diffM o (.arr t xs) (.arr t' ys))).Sublist (preB ++ b') := by
-  obtain ⟨D1, D2, preA, preB, ea, eb, e, hf, h1, h2, h3, h4⟩ :=
-    diffM_recurses_at ho hm xs ys ht ht' htt hla hlb hr hA hB hs
+  obtain ⟨D1, D2, preA, preB, n, ea, eb, e, hf, h1, h2, h3, h4⟩ :=
+    diffRest_recurses_at_subAfter ho [] hla hlb hr hA hB hs
+  rw [diffM, hm, diffNode_arr_arr ho xs ys ht ht' htt []]
   refine ⟨preA, preB, ea, eb, ?_, ?_⟩
   · rw [e]
     simp only [removedTop_append, removedTop_of_all_false hf, List.append_nil]
@@ -1120,7 +1194,8 @@ theorem diffRest_top_counts_le {o : Opts} (ho : dispatchTag o = .list) (p : Path
             omega
           · obtain ⟨h1, h2⟩ := ih (a'.length + b'.length) (by omega) a' b' rfl hla'.2 hlb'.2
               (k + 1) (k + 1) y c [] [] hca' hcb'
-            have hf := sub_isTop_false ho hla'.1 hlb'.1 hsame p (k : Int)
+            have hf := subAfter_isTop_false ho hla'.1 hlb'.1 hsame p (k : Int)
+              (R.isEmpty && A.isEmpty) (a'.headD .void)
             simp only [removedTop_append, addedTop_append, removedTop_accHunk, addedTop_accHunk,
               removedTop_of_all_false hf, addedTop_of_all_false hf, List.append_nil,
               List.length_append, List.length_nil, List.length_cons] at h1 h2 ⊢
@@ -1300,7 +1375,8 @@ theorem diff_empty_hash' (o : Opts) (ho : dispatchTag o = .list) {S T : List Jso
       List.append_eq_nil_iff] at h
     have h1 := accHunk_eq_nil h.1.1
     have h2 := ihR (sub_cons hS).2 (sub_cons hT).2 (goodL_cons.1 ha).2 (goodL_cons.1 hb).2 p h.2
-    have h3 := ihN (sub_cons hS).1 (sub_cons hT).1 (goodL_cons.1 ha).1 (goodL_cons.1 hb).1 _ h.1.2
+    have h3 := ihN (sub_cons hS).1 (sub_cons hT).1 (goodL_cons.1 ha).1 (goodL_cons.1 hb).1 _
+      ((subAfter_eq_nil_iff _ _ _ _).1 h.1.2)
     refine ⟨h1.1, h1.2, ?_⟩
     simp only [hashList, h3, h2.2.2]
   · intro k s prev c R A x a' y b' _ _ hA hB hs ih hS hT ha hb p h
@@ -1348,6 +1424,7 @@ theorem EmptyMeansSameHash.tailB {o : Opts} {y : Json} {a b : List Json}
     to the sub-diff of two same-kind containers. -/
 theorem diffRest_located_containers (o : Opts) (p : Path) (X Y : List Json) :
     ∀ (n : Nat) (a b : List Json), a.length + b.length = n →
+      (∀ x ∈ a, ∀ y ∈ b, mixedPair x y = false) →
       ∀ (k s : Nat) (c : List UInt64) (R A preA preB : List Json),
         EmptyMeansSameHash o a b → LOpt c (hashList o a) (hashList o b) →
         X = preA ++ R ++ a → Y = preB ++ A ++ b → preB.length = s → k = s + A.length →
@@ -1356,7 +1433,7 @@ theorem diffRest_located_containers (o : Opts) (p : Path) (X Y : List Json) :
   intro n
   induction n using Nat.strongRecOn with
   | _ n ih =>
-    intro a b hn k s c R A preA preB hE hopt hX hY hs hk h hm
+    intro a b hn hnm k s c R A preA preB hE hopt hX hY hs hk h hm
     cases a with
     | nil =>
       rw [diffRest_nilA] at hm
@@ -1370,6 +1447,12 @@ theorem diffRest_located_containers (o : Opts) (p : Path) (X Y : List Json) :
           (by simpa using hY) hs rfl)
       | cons y b' =>
         simp only [List.length_cons] at hn
+        have hAA : ∀ z ∈ a', ∀ w ∈ b', mixedPair z w = false := fun z hz w hw =>
+          hnm z (List.mem_cons_of_mem _ hz) w (List.mem_cons_of_mem _ hw)
+        have hA1 : ∀ z ∈ a', ∀ w ∈ y :: b', mixedPair z w = false := fun z hz w hw =>
+          hnm z (List.mem_cons_of_mem _ hz) w hw
+        have h1B : ∀ z ∈ x :: a', ∀ w ∈ b', mixedPair z w = false := fun z hz w hw =>
+          hnm z hz w (List.mem_cons_of_mem _ hw)
         have hlast : y = (preB ++ A ++ [y]).getLast?.getD .void := by simp
         rw [diffRest_cons] at hm
         rw [hashList_cons o x, hashList_cons o y] at hopt
@@ -1380,7 +1463,7 @@ theorem diffRest_located_containers (o : Opts) (p : Path) (X Y : List Json) :
           have hopt' := (hopt.skipA (atC_false hA)).skipB (atC_false hB)
           cases hsame : sameContainerType o x y <;>
             simp only [hsame, Bool.false_eq_true, if_false, if_true] at hm
-          · exact (ih (a'.length + b'.length) (by omega) a' b' rfl (k + 1) s c (R ++ [x]) (A ++ [y])
+          · exact (ih (a'.length + b'.length) (by omega) a' b' rfl hAA (k + 1) s c (R ++ [x]) (A ++ [y])
               preA preB hE.tailA.tailB hopt' (by simp [hX]) (by simp [hY]) hs (by simp; omega)
               h hm).imp id (fun hs => (hs.consA x).consB y)
           · have hne : hashCode o x ≠ hashCode o y := by
@@ -1392,22 +1475,24 @@ theorem diffRest_located_containers (o : Opts) (p : Path) (X Y : List Json) :
               | nil => exact absurd (hE x List.mem_cons_self y List.mem_cons_self _ hd) hne
               | cons _ _ => rfl
             simp only [hD, Bool.false_eq_true, if_false] at hm
+            rw [Real.subAfter_diffNode_of_not_mixed o hsame
+              (hnm x List.mem_cons_self y List.mem_cons_self)] at hm
             rcases List.mem_append.1 hm with hm | hm
             · rcases List.mem_append.1 hm with hm | hm
               · exact .inl (Real.accHunk_located hm hX hY hs rfl)
               · exact .inr ⟨[], x, a', [], y, b', rfl, rfl, hsame, by simpa using hm⟩
             · rw [hlast] at hm
-              exact (ih (a'.length + b'.length) (by omega) a' b' rfl (k + 1) (k + 1) c [] []
+              exact (ih (a'.length + b'.length) (by omega) a' b' rfl hAA (k + 1) (k + 1) c [] []
                 (preA ++ R ++ [x]) (preB ++ A ++ [y]) hE.tailA.tailB hopt' (by simp [hX])
                 (by simp [hY]) (by simp; omega) (by simp) h hm).imp id
                 (fun hs => (hs.consA x).consB y)
         · -- `y` is the next common element: remove `x`
-          exact (ih (a'.length + (y :: b').length) (by simp; omega) a' (y :: b') rfl k s c
+          exact (ih (a'.length + (y :: b').length) (by simp; omega) a' (y :: b') rfl hA1 k s c
             (R ++ [x]) A preA preB hE.tailA
             (by rw [hashList_cons]; exact hopt.skipA (atC_false hA)) (by simp [hX]) hY hs hk
             h hm).imp id (fun hs => hs.consA x)
         · -- `x` is the next common element: add `y`
-          exact (ih ((x :: a').length + b'.length) (by simp; omega) (x :: a') b' rfl (k + 1) s c R
+          exact (ih ((x :: a').length + b'.length) (by simp; omega) (x :: a') b' rfl h1B (k + 1) s c R
             (A ++ [y]) preA preB hE.tailB
             (by rw [hashList_cons]; exact hopt.skipB (atC_false hB)) hX (by simp [hY]) hs
             (by simp; omega) h hm).imp id (fun hs => hs.consB y)
@@ -1419,7 +1504,7 @@ theorem diffRest_located_containers (o : Opts) (p : Path) (X Y : List Json) :
           rcases List.mem_append.1 hm with hm | hm
           · exact .inl (Real.accHunk_located hm hX hY hs rfl)
           · rw [hlast] at hm
-            exact (ih (a'.length + b'.length) (by omega) a' b' rfl (k + 1) (k + 1) c.tail [] []
+            exact (ih (a'.length + b'.length) (by omega) a' b' rfl hAA (k + 1) (k + 1) c.tail [] []
               (preA ++ R ++ [x]) (preB ++ A ++ [y]) hE.tailA.tailB hopt' (by simp [hX])
               (by simp [hY]) (by simp; omega) (by simp) h hm).imp id
               (fun hs => (hs.consA x).consB y)
@@ -1429,12 +1514,13 @@ theorem diffNode_located_containers {o : Opts} (ho : dispatchTag o = .list)
     {t t' : Tag} (xs ys : List Json)
     (ht : (t == .raw || t == .list) = true) (ht' : (t' == .raw || t' == .list) = true)
     (htt : t = .raw ∨ t' = .list) (p : Path) (gx : GoodL xs) (gy : GoodL ys)
-    (Z : NumHashOK o (subtermsList xs) (subtermsList ys)) :
+    (Z : NumHashOK o (subtermsList xs) (subtermsList ys))
+    (nomix : ∀ x ∈ xs, ∀ y ∈ ys, mixedPair x y = false) :
     ∀ h ∈ diffNode o false (.arr t xs) (.arr t' ys) p,
       Real.Located p xs ys h ∨ SubHunk o p 0 xs ys h := by
   rw [diffNode_arr_arr ho xs ys ht ht' htt p]
   intro h hmem
-  exact diffRest_located_containers o p xs ys _ xs ys rfl 0 0 _ [] [] [] []
+  exact diffRest_located_containers o p xs ys _ xs ys rfl nomix 0 0 _ [] [] [] []
     (emptyMeansSameHash_of_good ho gx gy Z) (LOpt.lcs _ _) (by simp) (by simp) rfl rfl h
     (by simpa using hmem)
 
@@ -1450,7 +1536,8 @@ theorem diffM_located_containers {o : Opts} (ho : dispatchTag o = .list) (hm : i
     {t t' : Tag} (xs ys : List Json)
     (ht : (t == .raw || t == .list) = true) (ht' : (t' == .raw || t' == .list) = true)
     (htt : t = .raw ∨ t' = .list) (gx : GoodL xs) (gy : GoodL ys)
-    (Z : NumHashOK o (subtermsList xs) (subtermsList ys)) :
+    (Z : NumHashOK o (subtermsList xs) (subtermsList ys))
+    (nomix : ∀ x ∈ xs, ∀ y ∈ ys, mixedPair x y = false) :
     ∀ h ∈ diffM o (.arr t xs) (.arr t' ys),
       Real.Located [] xs ys h ∨
       (∃ (preA : List Json) (x : Json) (postA preB : List Json) (y : Json) (postB : List Json),
@@ -1458,7 +1545,7 @@ theorem diffM_located_containers {o : Opts} (ho : dispatchTag o = .list) (hm : i
           h ∈ diffNode o false x y [.idx (preB.length : Int)]) := by
   rw [diffM, hm, diffNode_arr_arr ho xs ys ht ht' htt []]
   intro h hmem
-  rcases diffRest_located_containers o [] xs ys _ xs ys rfl 0 0 _ [] [] [] []
+  rcases diffRest_located_containers o [] xs ys _ xs ys rfl nomix 0 0 _ [] [] [] []
     (emptyMeansSameHash_of_good ho gx gy Z) (LOpt.lcs _ _) (by simp) (by simp) rfl rfl h
     (by simpa using hmem) with h1 | ⟨preA, x, postA, preB, y, postB, ea, eb, hk, hh⟩
   · exact .inl h1
@@ -1476,6 +1563,8 @@ def ysE : List Json := [.obj [("a", .str "v")], .arr .raw [.str "p", .str "q"]]
 
 theorem same : sameKinds [] xsE ysE = true := by decide +kernel
 theorem apart : ∀ x ∈ xsE, ∀ y ∈ ysE, hashCode [] x ≠ hashCode [] y := by decide +kernel
+theorem nomixE : noMixed xsE ysE = true := by decide +kernel
+theorem nomixE' : ∀ x ∈ xsE, ∀ y ∈ ysE, mixedPair x y = false := by decide +kernel
 
 -- two hunks, both inside the elements: `@ [0,"a"] - "u" + "v"` and `@ [1,1] "p" + "q" ]`
 #eval diffM [] (.arr .raw xsE) (.arr .raw ysE)
@@ -1483,10 +1572,10 @@ theorem apart : ∀ x ∈ xsE, ∀ y ∈ ysE, hashCode [] x ≠ hashCode [] y :=
 /-- `diffM_same_kind_containers` applies to a concrete pair -/
 example : diffM [] (.arr .raw xsE) (.arr .raw ysE) =
     ((xsE.zip ysE).zipIdx).flatMap (fun q => diffNode [] false q.1.1 q.1.2 [.idx (q.2 : Int)]) :=
-  diffM_same_kind_containers rfl rfl xsE ysE rfl rfl (.inl rfl) same apart
+  diffM_same_kind_containers rfl rfl xsE ysE rfl rfl (.inl rfl) same nomixE apart
 
-/-- `diffM_array_hunks` has no hypothesis on the elements -/
-example := diffM_array_hunks (o := []) rfl rfl (t := .raw) (t' := .raw) xsE ysE rfl rfl (.inl rfl)
+/-- `diffM_array_hunks`: the only hypothesis on the elements is "no typed list against a plain array" -/
+example := diffM_array_hunks (o := []) rfl rfl (t := .raw) (t' := .raw) xsE ysE rfl rfl (.inl rfl) nomixE'
 
 /-- `diffM_hunk_shape_all_levels`: the documents are raw -/
 example : (Json.arr .raw xsE).rawDoc = true ∧ (Json.arr .raw ysE).rawDoc = true := by decide +kernel
@@ -1512,14 +1601,14 @@ example : ∃ (D1 D2 : Diff) (preA preB : List Json),
     exact this
   have h1 := Reach.sub h0 rfl rfl (by decide +kernel)
   exact diffM_recurses_at rfl rfl xsE ysE rfl rfl (.inl rfl) (by decide +kernel) (by decide +kernel)
-    h1 rfl rfl (by decide +kernel)
+    h1 rfl rfl (by decide +kernel) (by decide +kernel)
 
 /-- `diffRest_recurses_at` with a NON-empty common sequence: `["k", X]` against `["k", Y]` -/
 theorem reachK : Reach [] (.str "k" :: xsE) (.str "k" :: ysE) [hashCode [] (.str "k")] xsE ysE [] :=
   Reach.both Reach.start (by simp [atC]) (by simp [atC])
 
 example := diffRest_recurses_at (o := []) rfl [] (xs := .str "k" :: xsE) (ys := .str "k" :: ysE)
-  (by decide +kernel) (by decide +kernel) reachK rfl rfl (by decide +kernel)
+  (by decide +kernel) (by decide +kernel) reachK rfl rfl (by decide +kernel) (by decide +kernel)
 
 theorem goodX : GoodL xsE := ⟨by decide +kernel, by decide +kernel, by decide +kernel, by decide +kernel⟩
 theorem goodY : GoodL ysE := ⟨by decide +kernel, by decide +kernel, by decide +kernel, by decide +kernel⟩
@@ -1553,6 +1642,43 @@ example (L : FloatLaws) (D1 : Diff) (h : Hunk) (D2 : Diff)
     diffM_hunk_applies L [] rfl rfl _ _ h1 h2 h3 h4 h5 h6 h7 h8 h9 h10 D1 h D2 hd
   exact ⟨m, m', g1, g2⟩
 
+/-! ### why `noMixed` / `mixedPair … = false` is a hypothesis of the statements that speak of the
+  sub-diff `diffNode o false x y …` literally
+
+  A typed `jsonList` element against a plain `jsonArray` element: same-kind containers, the
+  sub-diff is ONE wholesale hunk at the element's own path, and the end block of `diffRest`
+  (`subAfter`) gives it the after-context (here the array-end marker): the diff is not the bare
+  concatenation of the sub-diffs. -/
+
+def xsM : List Json := [.arr .list [.bool true]]
+def ysM : List Json := [.arr .raw [.bool false]]
+
+theorem mixed_not_concatenation :
+    sameKinds [] xsM ysM = true ∧ (∀ x ∈ xsM, ∀ y ∈ ysM, hashCode [] x ≠ hashCode [] y) ∧
+    noMixed xsM ysM = false ∧
+    diffM [] (.arr .raw xsM) (.arr .raw ysM) =
+      [{ path := [.idx 0], remove := [.arr .list [.bool true]], add := [.arr .raw [.bool false]],
+         after := [.void] }] ∧
+    ((xsM.zip ysM).zipIdx).flatMap (fun q => diffNode [] false q.1.1 q.1.2 [.idx (q.2 : Int)]) =
+      [{ path := [.idx 0], remove := [.arr .list [.bool true]], add := [.arr .raw [.bool false]] }] := by
+  have hap : ∀ x ∈ xsM, ∀ y ∈ ysM, hashCode [] x ≠ hashCode [] y := by decide +kernel
+  have e : ∀ p, diffNode [] false (.arr .list [.bool true]) (.arr .raw [.bool false]) p =
+      [{ path := p, remove := [.arr .list [.bool true]], add := [.arr .raw [.bool false]] }] := by
+    intro p
+    rw [diffNode_arr_other (o := []) rfl _ _ rfl (.inr ⟨rfl, _, rfl⟩)]
+    rfl
+  refine ⟨by decide +kernel, hap, by decide +kernel, ?_, ?_⟩
+  · rw [diffM]
+    simp only [isMerge]
+    rw [diffNode_arr_arr rfl xsM ysM rfl rfl (.inl rfl) [], lcsValues_nil_of_apart [] xsM ysM hap]
+    simp only [xsM, ysM]
+    rw [diffRest_cons]
+    have s1 : sameContainerType [] (.arr .list [.bool true]) (.arr .raw [.bool false]) = true := rfl
+    simp only [atC_nil, s1, Bool.and_self, Bool.false_eq_true, if_false, if_true, e,
+      diffRest_nil_nil, subAfter_single]
+    simp [accHunk, subAfterFires]
+  · simp [xsM, ysM, List.zipIdx, e]
+
 /-! ### why well-formedness (unique keys) is a hypothesis of the context theorems
 
   OUTSIDE the domain (an object with a duplicate key, which a Go map cannot hold): the two objects
@@ -1585,7 +1711,7 @@ theorem nonwf_diff : diffM [] (.arr .raw xw) (.arr .raw yw) =
     rw [diffNode_obj_obj, diffKvs_cons, diffKvs_nil]
     simp [alookup, diffNode_scalar, diffCommon, equals]
   simp only [atC_nil, s2, Bool.and_self, Bool.false_eq_true, if_false, if_true, e,
-    List.isEmpty_nil, diffRest_nil_nil]
+    List.isEmpty_nil, diffRest_nil_nil, subAfter_nil]
   simp [accHunk]
 
 /-- the after-context `void` is not the neighbour `{"a":"u"}`: the hunk is rejected -/
@@ -1618,5 +1744,6 @@ end Jd.Rec
 #print axioms Jd.Rec.diffRest_located_containers
 #print axioms Jd.Rec.diffNode_located_containers
 #print axioms Jd.Rec.diffM_located_containers
+#print axioms Jd.Rec.Example.mixed_not_concatenation
 #print axioms Jd.Rec.Example.nonwf_diff
 #print axioms Jd.Rec.Example.nonwf_context_not_neighbour
